@@ -25,7 +25,7 @@ FLOORS = {
     'thorough': {'evaluations': 200000, 'terms_judged': 180000, 'rule_fired': 60000, 'distinct_nontrivial': 20000,
                  'valuations_judged': 2000000, 'smallscope_terms': 50000, 'predicates_judged': 20000},
 }
-BUDGET = {'quick': {'random': 8000, 'ss_fills': 1, 'envs': 24},
+BUDGET = {'quick': {'random': 16000, 'ss_fills': 2, 'envs': 24},
           'thorough': {'random': 220000, 'ss_fills': 12, 'envs': 40}}
 TIMEOUT = {'quick': 900, 'thorough': 7200}
 
@@ -44,8 +44,12 @@ def input_features(e):
                 fs.add('shape:eq-over-negation')
             if op in ('=', '!=') and any(s[0] == 'lit' and s[1] == 'str' for s in (x[2], x[3])):
                 fs.add('shape:eq-with-string-literal')
-        if x[0] == 'call' and x[1] in ('sum', 'prod', 'len', 'max', 'min', 'gcd') and x[2][0][0] == 'set':
-            fs.add('shape:aggregate-of-set')
+        if x[0] == 'call' and x[1] in ('sum', 'prod', 'len') and x[2][0][0] == 'set' and any(
+                m[0] not in ('lit', 'const') for m in x[2][0][1]):
+            # duplicates among the members matter for len/sum/prod only (not for max/min/gcd)
+            fs.add('shape:len-sum-prod-of-set-with-reference')
+        if x[0] == 'call' and x[1] in ('max', 'min', 'gcd') and x[2][0][0] == 'set':
+            fs.add('shape:max-min-gcd-of-set')
         if x[0] == 'call' and x[1] in ('sum', 'prod', 'len', 'max', 'min', 'gcd') and x[2][0][0] == 'range':
             fs.add('shape:aggregate-of-range')
     return fs
